@@ -883,6 +883,8 @@ class Exec:
     def arith(s, op, a, b):
         if isinstance(a, bool): a = int(a)
         if isinstance(b, bool): b = int(b)
+        if op == '+' and (isinstance(a, str) or isinstance(b, str)):
+            return str(a) + str(b)
         if isinstance(a, int) and isinstance(b, int):
             if op == '+': return a + b
             if op == '-': return a - b
@@ -1103,6 +1105,8 @@ class Exec:
         t = ty.replace('const ', '').strip()
         if t.endswith('*'):
             return None            # uninitialised pointer: any use before assignment fails in the executor
+        if re.match(r'(std::)?vector<', t):
+            return []
         sh = shape_of({'qualType': t})
         if sh is not None and 'vector<' not in t:
             return Mx(max(sh[0], 0), max(sh[1], 0), arr=sh[2])
@@ -1452,7 +1456,13 @@ class Exec:
             if name == 'begin': return ListIt(obj, 0)
             if name == 'end': return ListIt(obj, len(obj))
             if name == 'resize':
-                raise Unsupported('vector::resize')
+                k = _i(args[0])
+                if not isinstance(k, int):
+                    raise Unsupported('vector::resize to a symbolic size')
+                while len(obj) < k:
+                    obj.append(D(0) if len(args) < 2 else args[1])      # value-initialised elements
+                del obj[k:]
+                return None
             if name == 'reserve': return None
         if hasattr(obj, 'call'):
             return obj.call(name, args)
@@ -1497,6 +1507,18 @@ class Exec:
             return b if s.truth(c) else a
         if name == 'move' or name == 'forward':
             return args[0]
+        if name in ('accumulate', 'transform', 'copy') and args and isinstance(args[0], ListIt):
+            # models of the std algorithms over vector iterators (assumed contracts)
+            src = args[0].lst[args[0].i:args[1].i]
+            if name == 'accumulate':
+                acc = args[2]
+                for x in src:
+                    acc = s.arith('+', acc, x)
+                return acc
+            dst = args[2]
+            for j, x in enumerate(src):
+                dst.lst[dst.i + j] = args[3](x) if name == 'transform' else x
+            return None
         if name in ('make_unique', 'make_shared'):
             m = re.search(r'(?:unique_ptr|shared_ptr|unique_ptr_t)<\s*(?:[\w:]*::)?(\w+)\s*>', n['type'].get('qualType', ''))
             if not m:
